@@ -722,6 +722,73 @@ pub fn worker(ctx: &Ctx, mut wc: WorkerCtx, _extra: &[String]) {
         wc.count(&format!("D_{}_runs", which.name()), checked * 4);
     }
 
+    // ---- space L: long reads inside looping states. For every state of the production automata that loops on
+    // a printable byte (string payloads, paste bodies, parameter lists): the shortest buffer reaching it, one
+    // filler byte, then ONE read of 32 / 65 filler bytes followed by every way of leaving the state (one byte
+    // per distinct successor plus dead bytes) and a tail - cut so that the long read starts inside the loop.
+    // Bulk handling of a long read (skipping, copying, searching for a terminator) must not change the events.
+    for which in [Which::Event, Which::Command] {
+        let t = table(which);
+        // shortest buffer per state (breadth first over bytes in ascending order)
+        let mut prefix: Vec<Option<Vec<u8>>> = vec![None; t.size];
+        prefix[t.start] = Some(vec![]);
+        let mut queue = std::collections::VecDeque::from([t.start]);
+        while let Some(st) = queue.pop_front() {
+            let base = prefix[st].clone().unwrap();
+            for b in 0..=255u8 {
+                if let Some(ns) = t.step(st, b) {
+                    if prefix[ns].is_none() && !(t.accepting[ns] && t.terminal[ns]) {
+                        let mut w = base.clone();
+                        w.push(b);
+                        prefix[ns] = Some(w);
+                        queue.push_back(ns);
+                    }
+                }
+            }
+        }
+        let mut looping = 0u64;
+        let mut checked = 0u64;
+        for st in 0..t.size {
+            let Some(pre) = prefix[st].clone() else { continue };
+            let Some(filler) = (0x20u8..0x7f).find(|b| t.step(st, *b) == Some(st)) else { continue };
+            looping += 1;
+            for exit in local_reps(which, st) {
+                if t.step(st, exit) == Some(st) {
+                    continue;
+                }
+                for k in [31usize, 64] {
+                    for tail in [&b""[..], &b"\x1b\\"[..], &b"x"[..], &b"\x07y"[..]] {
+                        unit += 1;
+                        if unit % shards != shard {
+                            continue;
+                        }
+                        case += 1;
+                        if case <= resume {
+                            continue;
+                        }
+                        let mut w = pre.clone();
+                        w.push(filler);
+                        w.extend(std::iter::repeat(filler).take(k));
+                        w.push(exit);
+                        w.extend_from_slice(tail);
+                        wc.begin_case(case, &descriptor(1, which, &w[..w.len().min(200)], &[1]));
+                        checked += 1;
+                        let n = w.len();
+                        let a = pre.len() + 1;
+                        let mut parts = vec![vec![n], vec![a, n - a], vec![a, k + 1, n - a - k - 1], vec![1; n]];
+                        if pre.len() > 0 {
+                            parts.push(vec![pre.len(), n - pre.len()]);
+                        }
+                        check_and_report(&mut wc, &mut local, which, &w, &parts, "long", true);
+                    }
+                }
+            }
+        }
+        wc.count(&format!("L_{}_looping_states", which.name()), if shard == 0 { looping } else { 0 });
+        wc.count(&format!("L_{}_cases", which.name()), checked);
+        wc.count(&format!("L_{}_runs", which.name()), checked * 5);
+    }
+
     // ---- space T: tokeniser core over pattern sets
     {
         let pool = pattern_pool();
